@@ -187,7 +187,8 @@ def run(chk: common.Check):
         rule=("obligations = theorems of coq/props/C13.v (all line lists, all parser states, all non-empty selections). Parser correspondence: "
               "small test PDBs, synthetic multi-chain fragments (no TER, restart at the same number, blank ids, ligand chains, ligand before chain), "
               "structured mutations and a malformed stream, with and without -c; distinct = (text, chain selection). Search: full pipeline with "
-              "-c vs the file with the other chains' records deleted, all (quick: sampled) non-empty chain subsets"),
+              "-c vs the file with the other chains' records deleted, all (quick: sampled) non-empty chain subsets"
+              " Added in rounds 5-6: several structures in one invocation with -c, segment identifiers on records with a blank chain."),
         assumptions=["ATOM/HETATM records have at least 22 columns (otherwise the two runs fail with different exception classes)",
                      "downstream of the parser the options enter only through titrate_only/keep_protons/protonate_all/display_coupled_residues "
                      "(validated end to end by the search, not proved)"],
